@@ -73,3 +73,31 @@ def c15_generate_script_block(args, out):
     if not parse(0, frozenset(), names):
         return False, "result %r is not a dependency-ordered, exactly-once, contiguous layout of the blocks' scripts" % (res,)
     return True, ""
+
+
+def process_metadata(args, out):
+    "C14/C15/C11 statements: every job-script block and C++ function spec is delivered, in order; inject blocks once each in first-occurrence order"
+    mds = args["md_list"]
+    if out["outcome"] != "return":
+        return True, ""
+    res = _typed_to_py(out["value"])
+    cls = [x["cls"].split(".")[-1] for x in out["value"]["v"]]
+    jobs = [r for r, c in zip(res, cls) if c == "JobScriptSpecification"]
+    want_jobs = [dict(name=m["name"], script=list(m["script"]), depends_on=list(m.get("depends_on", []))) for m in mds if m.get("metadata_type") == "add_job_script"]
+    if jobs != want_jobs:
+        return False, "job-script blocks delivered %r, metadata declared %r (a block was dropped, reordered or altered)" % (jobs, want_jobs)
+    fns = [r["name"] for r, c in zip(res, cls) if c == "CPPCodeSpecification"]
+    want_fns = [m["name"] for m in mds if m.get("metadata_type") == "add_cpp_function"]
+    if fns != want_fns:
+        return False, "C++ function specifications delivered %r, declared %r" % (fns, want_fns)
+    inj = [r for r, c in zip(res, cls) if c == "InjectCodeBlock"]
+    want_inj = []
+    fields = ["body_includes", "header_includes", "private_members", "instance_initialization", "ctor_lines", "initialize_lines", "link_libraries"]
+    for m in mds:
+        if m.get("metadata_type") == "inject_code" and len(m) > 1:
+            b = dict(name=m["name"], **{f: list(m.get(f, [])) for f in fields})
+            if b not in want_inj:
+                want_inj.append(b)
+    if inj != want_inj:
+        return False, "inject_code blocks delivered %r, expected %r (each distinct block once, first-occurrence order)" % (inj, want_inj)
+    return True, ""
